@@ -446,7 +446,23 @@ func (r *Runtime) arrayproto_splice(call FunctionCall) Value {
 		panic(r.NewTypeError("Invalid array length"))
 	}
 	a := arraySpeciesCreate(o, actualDeleteCount)
-	if src := r.checkStdArrayObj(o); src != nil {
+	src := r.checkStdArrayObj(o)
+	if src != nil {
+		// The fast path writes elements and the length directly: it is only equivalent to the
+		// Set/DeletePropertyOrThrow sequence of the specification if new elements can be added,
+		// the length can be changed and no new index is intercepted by the prototype chain.
+		if !src.extensible || !src.lengthProp.writable {
+			src = nil
+		} else if src.prototype != nil {
+			for k := length; k < newLength; k++ {
+				if src.prototype.self.hasPropertyIdx(valueInt(k)) {
+					src = nil
+					break
+				}
+			}
+		}
+	}
+	if src != nil {
 		if dst := r.checkStdArrayObjWithProto(a); dst != nil {
 			values := make([]Value, actualDeleteCount)
 			copy(values, src.values[actualStart:])
